@@ -3497,6 +3497,14 @@ fn validate_extension_declarations(
         }
 
         for sc in &decl.sectors_with_claims {
+            // the claims are checked against this declaration's expiration only
+            if claim_space_by_sector.contains_key(&sc.sector_number) {
+                return Err(actor_error!(
+                    illegal_argument,
+                    "sector {} declared with claims more than once",
+                    sc.sector_number
+                ));
+            }
             let mut drop_claims = sc.drop_claims.clone();
             let mut all_claim_ids = sc.maintain_claims.clone();
             all_claim_ids.append(&mut drop_claims);
@@ -3560,6 +3568,16 @@ fn validate_extension_declarations(
                     })
                     .or_insert((claim.size.0, maintain_delta));
             }
+        }
+    }
+    // a sector declared with claims may not also be extended, unchecked, as a sector without claims
+    for decl in &extensions {
+        if let Some(sector_number) = claim_space_by_sector.keys().find(|n| decl.sectors.get(**n)) {
+            return Err(actor_error!(
+                illegal_argument,
+                "sector {} declared both with and without claims",
+                sector_number
+            ));
         }
     }
     Ok(ExtendExpirationsInner {
